@@ -43,12 +43,13 @@ def label (pg : PageBytes) : List UInt8 := pg.drop LABEL_OFF
 /-- the last 40 bytes `PageMut::pristine_empty` writes: a cleared bitfield and the label -/
 def pristineTail (pid : Nomt.TriePos.PageId) : List UInt8 := le64 0 ++ be32 (Nomt.TriePos.pidEncode pid)
 
-/-- `ElidedChildren::is_elided` -/
-def elidedGet (bits c : Nat) : Bool := bits / 2 ^ c % 2 == 1
+/-- `ElidedChildren::is_elided`: `(elided >> c) & 1 == 1` -/
+def elidedGet (bits c : Nat) : Bool := bits.testBit c
 
-/-- `ElidedChildren::set_elide` -/
+/-- `ElidedChildren::set_elide` on a `u64`: `elided |= 1 << c` / `elided &= !(1 << c)` -/
+def U64_MAX : Nat := 2 ^ 64 - 1
+
 def elidedSet (bits c : Nat) (on : Bool) : Nat :=
-  if on then (if elidedGet bits c then bits else bits + 2 ^ c)
-  else (if elidedGet bits c then bits - 2 ^ c else bits)
+  if on then bits ||| 2 ^ c else bits &&& (U64_MAX ^^^ 2 ^ c)
 
 end Nomt.PageLayout
